@@ -55,23 +55,24 @@ func (p *c05) Cases(tier string, emit func(interface{})) {
 	for _, it := range c05Ints {
 		lo, hi := kindRange(it.bits, it.signed)
 		hi1 := new(big.Int).Sub(hi, big.NewInt(1)).String()
-		single := []string{"5", "0..10", "min..10", "10..max", "min..max", "1..3|7..9", "1|3|5", " 1 .. 3 | 7 .. 9 ", hi1 + "..max", "min..5|" + hi.String()}
+		single := []string{"5", "0..10", "min..10", "10..max", "min..max", "1..3|7..9", "1|3|5", " 1 .. 3 | 7 .. 9 ", hi1 + "..max", "min..5|" + hi.String(),
+			"1..5|max", "min|4..8", "min|max", "max", "min", "min|5|max"} // a bare keyword is an alternative of its own
 		if it.signed {
 			single = append(single, "-5..5", "min..-1|1..max", lo.String()+"..-100")
 		}
 		for _, r := range single {
 			emit(c05Case{Kind: "range", Base: it.name, Levels: []string{r}})
 		}
-		chains := [][]string{{"0..100", "0..10"}, {"min..100", "5..50"}, {"0..10|20..30", "5..10|20..25"}, {"0..100", ""}, {"0..100", "10..50", "20..30"}, {"0..100", "", "20..30"}, {"10..max", "min..20"}, {"0..100", "10..90", "20..80", "30..70"}, {"0..100", "10..90", "20..80", "30..70", "40..60"}}
+		chains := [][]string{{"0..100", "0..10"}, {"min..100", "5..50"}, {"0..10|20..30", "5..10|20..25"}, {"0..100", ""}, {"0..100", "10..50", "20..30"}, {"0..100", "", "20..30"}, {"10..max", "min..20"}, {"0..100", "10..90", "20..80", "30..70"}, {"0..100", "10..90", "20..80", "30..70", "40..60"}, {"0..100", "min|50|max"}, {"5..50|60", "max"}}
 		for _, ch := range chains {
 			emit(c05Case{Kind: "range", Base: it.name, Levels: ch})
 		}
 	}
-	for _, r := range []string{"1.5..2.5", "min..0", "-1.5..1.5|3..max", "0.01", "1..2|2.01..3"} {
+	for _, r := range []string{"1.5..2.5", "min..0", "-1.5..1.5|3..max", "0.01", "1..2|2.01..3", "0..1|max", "min|0..1"} {
 		emit(c05Case{Kind: "range", Base: "decimal64", Levels: []string{r}})
 	}
 	emit(c05Case{Kind: "range", Base: "decimal64", Levels: []string{"0..10", "2.5..5"}})
-	for _, l := range [][]string{{"2"}, {"1..3"}, {"0..2|5"}, {"min..2"}, {"2..max"}, {"0..4", "1..2"}, {"1..5", "", "2..3"}, {"0..6", "1..5", "2..4", "3"}} {
+	for _, l := range [][]string{{"2"}, {"1..3"}, {"0..2|5"}, {"min..2"}, {"2..max"}, {"min|4..8"}, {"1..2|max"}, {"min"}, {"0..6", "min|3|max"}, {"0..4", "1..2"}, {"1..5", "", "2..3"}, {"0..6", "1..5", "2..4", "3"}} {
 		emit(c05Case{Kind: "length", Base: "string", Levels: l})
 	}
 	for _, pt := range [][]string{{"[0-9]+"}, {"a*"}, {"[a-c]{2}"}, {"[a-z]+&.*b.*"}, {"![0-9]+"}, {"[a-z]+", "a.*"}, {"[a-z]+", "", ".*z"}, {"a|b"}} {
